@@ -167,6 +167,8 @@ extern "C" {
     fn syscall(num: i64, ...) -> i64;
 }
 const SYS_RENAME: i64 = 82;
+const SYS_UNLINK: i64 = 87;
+const SYS_FTRUNCATE: i64 = 77;
 const SYS_MSYNC: i64 = 26;
 const SYS_FSYNC: i64 = 74;
 const SYS_FDATASYNC: i64 = 75;
@@ -251,6 +253,39 @@ pub unsafe extern "C" fn rename(old: *const std::ffi::c_char, new: *const std::f
         on_event("rename", n.file_name().map(|s| s.to_string_lossy().to_string()).unwrap_or_default(), None, None);
     }
     r
+}
+
+/// unlink is a directory operation too: the file is gone at once in both crash models (the mirror removes it)
+#[no_mangle]
+pub unsafe extern "C" fn unlink(path: *const std::ffi::c_char) -> i32 {
+    let r = syscall(SYS_UNLINK, path as i64) as i32;
+    if r == 0 && ctx_active() {
+        let p = PathBuf::from(std::ffi::CStr::from_ptr(path).to_string_lossy().to_string());
+        on_event("unlink", p.file_name().map(|s| s.to_string_lossy().to_string()).unwrap_or_default(), None, None);
+    }
+    r
+}
+
+/// ftruncate (File::set_len): the new length is durable at once; shrinking drops the synced bytes beyond it
+#[no_mangle]
+pub unsafe extern "C" fn ftruncate64(fd: i32, len: i64) -> i32 {
+    let r = syscall(SYS_FTRUNCATE, fd as i64, len) as i32;
+    if r == 0 && ctx_active() {
+        if let Some(p) = fd_path(fd) {
+            let name = p.file_name().map(|s| s.to_string_lossy().to_string()).unwrap_or_default();
+            if len == 0 {
+                on_event("ftruncate", name, None, Some(&p));
+            } else {
+                on_event("ftruncate", name, None, None);
+            }
+        }
+    }
+    r
+}
+
+#[no_mangle]
+pub unsafe extern "C" fn ftruncate(fd: i32, len: i64) -> i32 {
+    ftruncate64(fd, len)
 }
 
 fn install() {
